@@ -106,6 +106,12 @@ pub fn profile_for(spec: &CheckSpec, i: u64) -> &'static str {
 
 pub fn profile_for_tier(spec: &CheckSpec, i: u64, thorough: bool) -> &'static str {
     let all: Vec<&ProfileSpec> = if thorough { spec.profiles.iter().chain(spec.thorough_extra.iter()).collect() } else { spec.profiles.iter().collect() };
+    // development aid (never set by a registered command): restrict a batch to one of its profiles
+    if let Ok(only) = std::env::var("SIM_ONLY_PROFILE") {
+        if let Some(p) = all.iter().find(|p| p.name == only) {
+            return p.name;
+        }
+    }
     let total: u64 = all.iter().map(|p| p.weight as u64).sum();
     let mut x = mix_all(&[i, 77]) % total.max(1);
     for p in all.iter() {
